@@ -2,8 +2,9 @@
 
 Tie to the code: REAL ROI-less `DynamicObject2D` lists go through the real `get_object_results`,
 `ClassificationAccuracy`, `divide_objects(_to_num)` and `ClassificationMetricsScore._summarize`; the same
-lists go to the Lean model (`PEval.Model.Classification`), pairs are compared by harness id in order,
-counts exactly, scores within 1e-9 (inf / nan exactly).
+lists go to the Lean model (`PEval.Model.Classification`), the results are compared by harness id as a SET of pairs
+(the property does not order them), counts exactly, defined scores within 1e-9 (an undefined score -- zero denominator --
+is not compared: "whenever defined").
 
 Manager level (kind 'manager'): the same statement where a user observes it -- a real `PerceptionEvaluationManager`
 (`evaluation_task="classification2d"`, no dataset) is given hand-made frames through `add_frame_result` and asked for
@@ -23,7 +24,8 @@ Known finding C11-N1 (`known_finding`): with an FP-labelled ground truth the lab
 in that sense (the label stage pairs equal labels only, greedily in list order).  A failure of the maximality clause is
 attributed to it iff nothing else fails, the mode is label-first, every camera (frame) where it fails holds an
 FP-labelled ground truth, the shortfall is at most their number (Lean: tlr_tp_maximum_up_to_fp; without such a ground
-truth the count IS maximal: tlr_tp_maximum) and the results are exactly the greedy two-stage pairing in list order.
+truth the count IS maximal: tlr_tp_maximum) and the paired results are, as a set, the greedy two-stage pairing (for one of
+the four scan orders: which equally-labelled candidate is taken first is a tie the property leaves open).
 Stored replays: harness/corpus/c11/n1_*.json.
 """
 from __future__ import annotations
@@ -106,10 +108,30 @@ TRUSTED += [
 ]
 ASSUMPTIONS = [
     "objects are ROI-less DynamicObject2D, distinct Python objects; uuids non-null and unique per side and camera "
-    "(the property's domain) for the oracle; null / duplicate uuids are compared with the model only (error kinds)",
-    "the [0,1] range of per-label buckets is asserted only when no ground truth carries the FP label: "
-    "ClassificationAccuracy takes num_ground_truth from its caller and an FP-labelled ground truth makes every paired "
-    "estimate label-correct without being counted in the estimate's label bucket (see report: recall 2.0)",
+    "(the property's domain) for the oracle; null / duplicate uuids are compared with the model only (a difference is a counted skip)",
+    "the [0,1] range is asserted for every defined score with ONE exact exemption, observation O3 of DESIGN section 7 (same root "
+    "as known finding C11-N1: a pair with an FP-labelled ground truth is label-correct whatever the estimate says): a per-label "
+    "accuracy (or the summary over the labels) whose label-correct count includes k >= 1 pairs with an FP-labelled ground truth "
+    "that is not among the label's num_ground_truth, and whose count tp exceeds that num_ground_truth, may show recall / accuracy "
+    "above 1 -- exactly tp/ngt, tp/(n+ngt-tp); the repaired convention (those ground truths counted: ngt + k) is accepted as well "
+    "and must lie in [0,1]; any other value outside [0,1] is reported",
+    "an UNDEFINED score (zero denominator) is not judged: the property says `whenever defined`; the code documents inf, one place "
+    "returns nan",
+    "per-label scores: a result is counted under its ESTIMATE's label when that is a target label; whether a result whose estimate "
+    "label is no target is counted under its ground truth's label (today's divide_objects) or not at all is not stated by the "
+    "property -- either convention is accepted, one per case; what IS asserted ('counting definitions over the pairs') is that the "
+    "per-label counts do not depend on the order in which the results are listed (the same results reversed give the same counts). "
+    "The return value of divide_objects itself (keys, order inside a bucket, non-target keys, identity of its inputs) is not judged",
+    "unpaired estimates: reported as results without ground truth where get_object_results' docstring says so (`Otherwise, they all "
+    "are FP`: no ground truth at all; the generic uuid path) and not reported for FP validation without ground truths (`will be "
+    "ignored`); NOT judged where code and docstring part ways: the traffic-light path (drops them), an unpaired estimate on "
+    "CAM_TRAFFIC_LIGHT (the whole tail is dropped), FP validation with ground truths",
+    "correspondence: the implementation may return any label-first pairing that the oracle's pairing clauses admit (another tie "
+    "winner; the repaired behaviour of C11-N1) -- then, and when results without ground truth differ where the text is silent, the "
+    "scores are judged by the oracle alone and the case is a counted skip of the correspondence; null / duplicate uuids (outside "
+    "the quantifier): agreement is recorded, any difference is a counted skip. The regenerated decision tables of the pairing "
+    "kernels (theorems pair_table_check ...) still tie the code to the model's list-order greedy algorithm: a tie-order / "
+    "result-order change of the kernels breaks them and is reported without a failing input",
     "maximality is asserted for the count the metrics use (label-correct pairs: equal labels, or the ground truth carries the FP "
     "label) against every one-to-one same-camera pairing all of whose pairs the rule can form -- label-first: equal label or equal "
     "uuid (Lean RuleAdmissible); uuid-first: equal uuid (there the answer is checked to be exactly the set of same-uuid same-camera "
@@ -118,11 +140,12 @@ ASSUMPTIONS = [
     "that behaviour). Separately the label stage's precedence is asserted: as many EQUALLY-labelled pairs as any one-to-one "
     "same-camera pairing has (label-first)",
     "known finding C11-N1: a failure of the maximality clause alone, label-first, with an FP-labelled ground truth in every camera "
-    "(and frame) where it fails, a shortfall of at most their number there, and results identical to the greedy two-stage pairing in "
-    "list order, is reported as KNOWN-FINDING, not as a violation; any maximality failure without an FP-labelled ground truth, with "
-    "a larger shortfall, with other results, in uuid-first mode, or next to any other failing clause is a violation",
-    "manager level: the [0,1] range and the 'all 1' statement are not asserted for a frame (scene) with an FP-labelled ground truth "
-    "(same reason as for the per-label buckets above)",
+    "(and frame) where it fails, a shortfall of at most their number there, and paired results that are, as a set, the greedy "
+    "two-stage pairing for one of the four scan orders, is reported as KNOWN-FINDING, not as a violation; any maximality failure "
+    "without an FP-labelled ground truth, with a larger shortfall, with other results, in uuid-first mode, or next to any other "
+    "failing clause is a violation",
+    "manager level: the 'all 1' statement is not asserted for a frame (scene) with an FP-labelled ground truth; which ground truths "
+    "the manager keeps is C10's statement and not judged here; the per-label accuracies are looked up by their own target_labels",
 ]
 
 TL = ["green", "red", "yellow", "unknown", "false_positive"]
@@ -445,54 +468,102 @@ def _manager(case):
         plt.subplots = orig
 
 
+class HarnessSetupError(RuntimeError):
+    """raised by harness code only (building objects / managers / buckets): run_check files it as an infrastructure error"""
+
+
+def _setup(fn, what):
+    """a SET-UP step that uses the library as a tool; its failure says nothing about pairing or scoring"""
+    try:
+        return fn()
+    except Exception as e:  # noqa: BLE001
+        raise HarnessSetupError(f"{what}: {type(e).__name__}: {e}")
+
+
+UNOBSERVABLE = {}
+
+
+def _unobs(name):
+    UNOBSERVABLE[name] = UNOBSERVABLE.get(name, 0) + 1
+
+
+def _summary_of(sc):
+    """ClassificationMetricsScore._summarize() (anchor `observe_at`; a private name: resolved with getattr, the summary is
+    dropped from the observation when it is not there)"""
+    fn = getattr(sc, "_summarize", None)
+    if fn is None:
+        _unobs("ClassificationMetricsScore._summarize")
+        return None
+    return [_fl(x) for x in fn()]
+
+
 def _score_out(M, ms):
-    """the classification part of a MetricsScore"""
+    """the classification part of a MetricsScore (the last classification score when there are several)"""
     o = {"n_scores": len(ms.classification_scores)}
     if ms.classification_scores:
         sc = ms.classification_scores[-1]
         o["accs"] = [_acc(a) for a in sc.accuracies]
         o["labels"] = [[x.value for x in a.target_labels] for a in sc.accuracies]
-        o["summary"] = [_fl(x) for x in sc._summarize()]
+        o["summary"] = _summary_of(sc)
     return o
 
 
 def _run_manager(case):
+    """`out["err"]` comes from add_frame_result / get_scene_result (and reading the scores they produced) only; building the
+    manager, the configs, the objects and the harness's own bucket bookkeeping are set-up (HarnessSetupError)"""
     M = _mods()
     from perception_eval.common.dataset import FrameGroundTruth
     from perception_eval.evaluation.result.perception_frame_config import CriticalObjectFilterConfig, PerceptionPassFailConfig
 
     mk, Label, tab = M["DynamicObject2D"], M["Label"], M["lab"][case["fam"]]
-    try:
-        m = _manager(case)
-        cfg = m.evaluator_config
-        crit = CriticalObjectFilterConfig(cfg, list(case["targets"]))
-        pf = PerceptionPassFailConfig(cfg, list(case["targets"]))
-        out = {"frames": [], "targets": [t.value for t in m.target_labels]}
-        for k, fr in enumerate(case["frames"]):
-            ests = [mk(100 + k, M["frame"][c], 1.0, Label(tab[l], l), None, u) for (l, c, u) in fr["ests"]]
-            gts = [mk(100 + k, M["frame"][c], 1.0, Label(tab[l], l), None, u) for (l, c, u) in fr["gts"]]
-            eid = {id(o): i for i, o in enumerate(ests)}
-            gid = {id(o): i for i, o in enumerate(gts)}
+    m = _setup(lambda: _manager(case), "PerceptionEvaluationManager without a dataset")
+    cfg = m.evaluator_config
+    crit = _setup(lambda: CriticalObjectFilterConfig(cfg, list(case["targets"])), "CriticalObjectFilterConfig")
+    pf = _setup(lambda: PerceptionPassFailConfig(cfg, list(case["targets"])), "PerceptionPassFailConfig")
+    targets = [t.value for t in m.target_labels]
+    if targets != list(case["targets"]):
+        raise HarnessSetupError(f"the manager's target labels {targets} are not the configured {case['targets']}")
+    out = {"frames": [], "targets": targets}
+    for k, fr in enumerate(case["frames"]):
+        ests = _setup(lambda: [mk(100 + k, M["frame"][c], 1.0, Label(tab[l], l), None, u) for (l, c, u) in fr["ests"]], "estimates")
+        gts = _setup(lambda: [mk(100 + k, M["frame"][c], 1.0, Label(tab[l], l), None, u) for (l, c, u) in fr["gts"]], "ground truths")
+        eid = {id(o): i for i, o in enumerate(ests)}
+        gid = {id(o): i for i, o in enumerate(gts)}
+        ekey = {(o.uuid, o.frame_id.value, o.semantic_label.name): i for i, o in enumerate(ests)}
+        gkey = {(o.uuid, o.frame_id.value, o.semantic_label.name): i for i, o in enumerate(gts)}
 
-            def rid(r):
-                g = r.ground_truth_object
-                return [eid.get(id(r.estimated_object), -1), None if g is None else gid.get(id(g), -1)]
+        def ix(o, by_id, by_key):
+            # the object itself, else (a manager that evaluates copies) the object with the same uuid, camera and label name
+            i = by_id.get(id(o))
+            return i if i is not None else by_key.get((o.uuid, o.frame_id.value, o.semantic_label.name), -1)
 
-            r = m.add_frame_result(100 + k, FrameGroundTruth(100 + k, str(k), list(gts)), list(ests), crit, pf)
+        def rid(r):
+            g = r.ground_truth_object
+            return [ix(r.estimated_object, eid, ekey), None if g is None else ix(g, gid, gkey)]
+
+        frame = _setup(lambda: FrameGroundTruth(100 + k, str(k), list(gts)), "FrameGroundTruth")
+        try:
+            r = m.add_frame_result(100 + k, frame, list(ests), crit, pf)
             fo = {"pairs": [rid(x) for x in r.object_results], "correct": [bool(x.is_label_correct) for x in r.object_results],
-                  "gts_kept": [gid.get(id(g), -1) for g in r.frame_ground_truth.objects]}
+                  "gts_kept": [ix(g, gid, gkey) for g in r.frame_ground_truth.objects]}
             fo.update(_score_out(M, r.metrics_score))
-            # the per-label buckets as the manager forms them (evaluate_frame / get_scene_result): TRUSTED divide_objects(_to_num)
-            d = M["divide_objects"](r.object_results, m.target_labels)
-            n = M["divide_objects_to_num"](r.frame_ground_truth.objects, m.target_labels)
-            fo["buckets"] = [[rid(x) for x in d[t]] for t in m.target_labels]
-            fo["bucket_num_gt"] = [n[t] for t in m.target_labels]
-            out["frames"].append(fo)
-        out["n_frame_results"] = len(m.frame_results)
+        except HarnessSetupError:
+            raise
+        except Exception as e:
+            return {"err": type(e).__name__, "where": f"add_frame_result (frame {k})"}
+        # the per-label buckets for the MODEL (which takes them as given), formed the way evaluate_frame / get_scene_result do
+        d = _setup(lambda: M["divide_objects"](r.object_results, m.target_labels), "divide_objects (harness bookkeeping)")
+        n = _setup(lambda: M["divide_objects_to_num"](r.frame_ground_truth.objects, m.target_labels), "divide_objects_to_num")
+        fo["buckets"] = [[rid(x) for x in d[t]] for t in m.target_labels]
+        fo["bucket_num_gt"] = [n[t] for t in m.target_labels]
+        out["frames"].append(fo)
+    try:
         out["scene"] = _score_out(M, m.get_scene_result())
-        return out
+    except HarnessSetupError:
+        raise
     except Exception as e:
-        return {"err": type(e).__name__}
+        return {"err": type(e).__name__, "where": "get_scene_result"}
+    return out
 
 
 def corpus():
@@ -630,7 +701,7 @@ def table_witness_cases():
 def extra_evidence():
     from .. import dt_c11
 
-    return {"tables": dt_c11.evidence()}
+    return {"tables": dt_c11.evidence(), "unobservable": dict(UNOBSERVABLE), "accepted_differences_to_the_model": dict(ACCEPTED)}
 
 
 _TB = {}
@@ -711,7 +782,7 @@ def _fl(x):
 def _acc(a):
     return {"num_gt": a.num_ground_truth, "num": a.objects_results_num, "tp": a.num_tp, "fp": a.num_fp,
             "accuracy": _fl(a.accuracy), "precision": _fl(a.precision), "recall": _fl(a.recall), "f1": _fl(a.f1score),
-            "results": {k: _fl(v) for k, v in a.results.items()}}
+            "results": {str(k): _fl(v) for k, v in a.results.items()}}
 
 
 def _build(case):
@@ -741,16 +812,17 @@ def _lkey(label):
 
 def _per_label(M, res, gts, targets, split, rid, out, separate=True, metrics=True):
     """what PerceptionFrameResult.evaluate_frame does for classification: divide_objects, divide_objects_to_num,
-    ClassificationMetricsScore; records the complete dict returned by divide_objects and whether the call left its
-    inputs alone and answers the same when repeated"""
-    res_before, tg_before = list(res), list(targets)
+    ClassificationMetricsScore.  Recorded: the buckets handed to the metrics (the Lean model takes them as given), the scores,
+    and -- for the clause 'the counts do not depend on the order in which the results are listed' -- per target label the
+    number of results and of label-correct results when the same results are listed forwards and backwards"""
     d = M["divide_objects"](res, targets)
-    out["divide"] = [[_lkey(k), [rid(r) for r in v]] for k, v in d.items()]
-    out["inputs_unchanged"] = (len(res) == len(res_before) and all(a is b for a, b in zip(res, res_before))
-                               and len(targets) == len(tg_before) and all(a is b for a, b in zip(targets, tg_before)))
-    d2 = M["divide_objects"](res, targets)
-    out["repeat_same"] = (list(d2.keys()) == list(d.keys())
-                          and all(len(d2[k]) == len(d[k]) and all(a is b for a, b in zip(d2[k], d[k])) for k in d))
+    d_rev = M["divide_objects"](list(reversed(res)), targets)
+
+    def counts(dd):
+        return [[len(dd[t]), sum(1 for r in dd[t] if r.is_label_correct)] for t in targets]
+
+    out["label_counts"] = counts(d)
+    out["label_counts_reversed"] = counts(d_rev)
     if not metrics:
         return
     n = M["divide_objects_to_num"](gts, targets)
@@ -765,11 +837,12 @@ def _per_label(M, res, gts, targets, split, rid, out, separate=True, metrics=Tru
         out["buckets"].append(b)
     sc = M["ClassificationMetricsScore"](od, n, targets)
     out["score_accs"] = [_acc(a) for a in sc.accuracies]
-    if not separate:
-        for b, a in zip(out["buckets"], out["score_accs"]):
-            b["acc"] = a
     out["score_labels"] = [[x.value for x in a.target_labels] for a in sc.accuracies]
-    out["summary"] = [_fl(x) for x in sc._summarize()]
+    if not separate:
+        for b in out["buckets"]:
+            hit = [a for a, l in zip(out["score_accs"], out["score_labels"]) if l == [b["label"]]]
+            b["acc"] = hit[0] if len(hit) == 1 else None
+    out["summary"] = _summary_of(sc)
 
 
 def _div_specs(case):
@@ -793,7 +866,8 @@ def _run_divide(case):
     fam = case["fam"]
     tab, mk, Label, Res = M["lab"][fam], M["DynamicObject2D"], M["Label"], M["DynamicObjectWithPerceptionResult"]
     cam = M["frame"][CAMS[0]]
-    try:
+
+    def build():
         # fresh objects per result, in the layout of _div_specs: est i <-> gt "u<i>", then the unpaired gts
         eid, gid, gts, res = {}, {}, [], []
         for i, (e, g) in enumerate(case["rs"]):
@@ -809,55 +883,61 @@ def _run_divide(case):
             gt = mk(100, cam, 1.0, Label(tab[g], g), None, "x%d" % k)
             gid[id(gt)] = len(gts)
             gts.append(gt)
-        targets = [tab[t] for t in case["targets"]]
+        return eid, gid, gts, res, [tab[t] for t in case["targets"]]
 
-        def rid(r):
-            g = r.ground_truth_object
-            return [eid[id(r.estimated_object)], None if g is None else gid[id(g)]]
+    eid, gid, gts, res, targets = _setup(build, "result list of a 'divide' case")
 
-        metrics = case.get("metrics", True)
-        out = {"pairs": [rid(r) for r in res]}
+    def rid(r):
+        g = r.ground_truth_object
+        return [eid[id(r.estimated_object)], None if g is None else gid[id(g)]]
+
+    metrics = case.get("metrics", True)
+    out = {"pairs": [rid(r) for r in res]}
+    try:  # the scoring the property is about: is_label_correct, per-label ClassificationAccuracy, ClassificationMetricsScore
         if metrics:
             out["correct"] = [bool(r.is_label_correct) for r in res]
         _per_label(M, res, gts, targets, case["split"], rid, out, separate=False, metrics=metrics)
-        return out
     except Exception as e:
-        return {"err": type(e).__name__}
+        return {"err": type(e).__name__, "where": "scoring"}
+    return out
 
 
 def run_impl(case):
+    """`out["err"]` comes from get_object_results (where: pairing) or from the classification scoring of its results (where:
+    scoring); building the objects is set-up"""
     if case.get("kind") == "divide":
         return _run_divide(case)
     if case.get("kind") == "manager":
         return _run_manager(case)
     M = _mods()
-    ests, gts = _build(case)
+    ests, gts = _setup(lambda: _build(case), "objects of the case")
     eid = {id(o): i for i, o in enumerate(ests)}
     gid = {id(o): i for i, o in enumerate(gts)}
+    targets = None
+    if case["targets"] is not None:
+        targets = [M["lab"][case["fe"]][t] for t in case["targets"]]
     try:
-        targets = None
-        if case["targets"] is not None:
-            targets = [M["lab"][case["fe"]][t] for t in case["targets"]]
-        n_e, n_g = len(ests), len(gts)
         res = M["get_object_results"](M["task"][case["task"]], ests, gts, target_labels=targets,
                                       uuid_matching_first=case["uf"])
-        if len(ests) != n_e or len(gts) != n_g:
-            return {"err": "InputMutated"}
+    except Exception as e:
+        return {"err": type(e).__name__, "where": "pairing"}
 
-        def rid(r):
-            g = r.ground_truth_object
-            return [eid[id(r.estimated_object)], None if g is None else gid[id(g)]]
+    def rid(r):
+        g = r.ground_truth_object
+        return [eid.get(id(r.estimated_object), -1), None if g is None else gid.get(id(g), -1)]
 
-        out = {"pairs": [rid(r) for r in res], "correct": [bool(r.is_label_correct) for r in res]}
+    out = {"pairs": [rid(r) for r in res]}
+    try:
+        out["correct"] = [bool(r.is_label_correct) for r in res]
         whole = M["ClassificationAccuracy"](res, len(gts), targets or [])
         out["whole"] = _acc(whole)
         nested = M["ClassificationAccuracy"](_split(res, max(case["split"], 1)), len(gts), targets or [])
         out["whole_nested"] = _acc(nested)
         if targets is not None:
             _per_label(M, res, gts, targets, case["split"], rid, out)
-        return out
     except Exception as e:
-        return {"err": type(e).__name__}
+        return {"err": type(e).__name__, "where": "scoring", "pairs": out["pairs"]}
+    return out
 
 
 # ----------------------------------------------------------------------------- model
@@ -892,39 +972,109 @@ def _manager_requests(case, out):
     return reqs
 
 
+ACCEPTED = {}
+
+
+def _note(key):
+    ACCEPTED[key] = ACCEPTED.get(key, 0) + 1
+
+
+def _spairs(pairs):
+    """the result list as the property sees it: a SET of (estimate, ground truth | None) -- the text does not order the results
+    and no score depends on their order"""
+    return sorted((list(p) for p in pairs), key=lambda p: (p[0], -1 if p[1] is None else p[1]))
+
+
+def _pairs_verdict(c2, E, G, impl_pairs, model_pairs, task="classification2d"):
+    """None = the same result set; "scores-open" = an accepted difference after which the scores of the two sides cannot be
+    compared; otherwise a message.  Accepted differences (the Lean model follows today's code, the property leaves the point
+    open or the code has a LISTED defect there):
+      * results WITHOUT ground truth where the property does not say whether unpaired estimates are reported (traffic-light
+        path, the CAM_TRAFFIC_LIGHT exception of the generic path, FP validation -- see `_fp_tail_stated`);
+      * label-first traffic lights: any result the oracle's pairing clauses admit (another tie winner; the repaired behaviour
+        of known finding C11-N1)."""
+    a, b = _spairs(impl_pairs), _spairs(model_pairs)
+    if a == b:
+        return None
+    pa, pb = [p for p in a if p[1] is not None], [p for p in b if p[1] is not None]
+    if pa == pb and not _fp_tail_stated(c2, E, G, task, [tuple(p) for p in pa]):
+        _note("compare:fp-results-differ-where-the-text-is-silent")
+        return "scores-open"
+    if c2["fe"] == "tl" and not c2["uf"] and all(0 <= p[0] < len(E) and (p[1] is None or 0 <= p[1] < len(G)) for p in a):
+        # label-first traffic lights: WHICH of several equally-labelled candidates is taken is a tie the property leaves open
+        # (the model walks the lists in order).  An implementation result that satisfies every pairing clause of the oracle --
+        # maximality included, or missing it only in the way of known finding C11-N1 (so also the REPAIRED behaviour where the
+        # model's greedy pairing misses the maximum) -- is admitted by the proved relation; the scores are then judged by the
+        # oracle alone
+        short_i = []
+        oi = _oracle_pairing(c2, E, G, [list(p) for p in a], short_i, task=task)
+        if oi is None and all(x["fp_gts"] >= 1 and 0 < x["max"] - x["got"] <= x["fp_gts"] for x in short_i):
+            _note("compare:another-admissible-label-first-pairing")
+            return "scores-open"
+    return f"pairs: impl {a} != model {b}"
+
+
 def _compare_manager(case, out, resps):
     if "err" in out:
         errs = [r["err"] for r in resps if "err" in r]
-        return None if errs and errs[0] == out["err"] else f"impl raised {out['err']}, model {errs[:1] or 'ok'}"
+        # the domain of the manager cases is unique non-null uuids: the model never raises; raised vs returned
+        return None if errs else f"impl raised {out['err']} in {out.get('where')}, model ok"
     nf = len(case["frames"])
+    c2 = {"fe": case["fam"], "fg": case["fam"], "uf": case["uf"], "targets": case["targets"]}
+    open_scores = False
     for k in range(nf):
         r, fo = resps[k], out["frames"][k]
         if "err" in r:
             return f"frame {k}: impl ok, model {r['err']}"
-        if fo["pairs"] != r["pairs"]:
-            return f"frame {k}: pairs: impl {fo['pairs']} != model {r['pairs']}"
-        d = _compare_scores(f"frame {k}", fo, r)
+        fr = case["frames"][k]
+        ke, kg = _kept(case, fr["ests"]), _kept(case, fr["gts"])
+        E, G = [fr["ests"][i] for i in ke], [fr["gts"][j] for j in kg]
+        pe, pg = {i: a for a, i in enumerate(ke)}, {j: a for a, j in enumerate(kg)}
+        loc = lambda ps: [[pe.get(i, -1), None if j is None else pg.get(j, -1)] for i, j in ps]  # noqa: E731
+        v = _pairs_verdict(c2, E, G, loc(fo["pairs"]), loc(r["pairs"]))
+        if v == "scores-open":
+            open_scores = True
+            continue
+        if v:
+            return f"frame {k}: {v}"
+        d = _compare_scores(f"frame {k}", fo, r, case["targets"])
         if d:
             return d
-    return _compare_scores("scene", out["scene"], resps[nf])
+    if open_scores:
+        return "skip"
+    return _compare_scores("scene", out["scene"], resps[nf], case["targets"])
 
 
-def _compare_scores(name, so, r):
-    if so.get("n_scores") != 1:
-        return f"{name}: {so.get('n_scores')} classification scores instead of one"
-    if len(so["accs"]) != len(r["buckets"]):
-        return f"{name}: {len(so['accs'])} per-label accuracies, model {len(r['buckets'])}"
-    for lab, a, m in zip(so["labels"], so["accs"], r["buckets"]):
-        d = _acc_diff(f"{name}.accuracies{lab}", a, m)
-        if d:
-            return d
-    for k, a, m in zip(("accuracy", "precision", "recall", "f1"), so["summary"], r["summary"]):
-        if not _score_eq(a, m):
-            return f"{name}.summary.{k}: impl {a} != model {m}"
+def _compare_scores(name, so, r, T):
+    """T: the target labels, in the order of the model's buckets (the order of the request); the implementation's per-label
+    accuracies are looked up by their own `target_labels`, not by position"""
+    if not so.get("n_scores"):
+        return f"{name}: no classification score"
+    by_label = {}
+    for lab, a in zip(so["labels"], so["accs"]):
+        by_label.setdefault(tuple(lab), []).append(a)
+    model_labels = [[t] for t in T] if len(T) == len(r["buckets"]) else None
+    if model_labels is None:
+        _unobs("per-label accuracies (structure)")
+    else:
+        for lab, m in zip(model_labels, r["buckets"]):
+            hit = by_label.get(tuple(lab), [])
+            if len(hit) != 1:
+                _unobs("per-label accuracies (structure)")
+                continue
+            d = _acc_diff(f"{name}.accuracies{list(lab)}", hit[0], m)
+            if d:
+                return d
+    if so.get("summary") is not None:
+        for k, a, m in zip(("accuracy", "precision", "recall", "f1"), so["summary"], r["summary"]):
+            if not _score_eq(a, m):
+                return f"{name}.summary.{k}: impl {a} != model {m}"
     return None
 
 
 def model_requests(case, out):
+    if out.get("unexpected"):
+        return []
     if case.get("kind") == "divide":
         return []  # the oracle is the reference for this kind (the Lean model takes the buckets as given)
     if case.get("kind") == "manager":
@@ -937,8 +1087,12 @@ def model_requests(case, out):
 
 
 def _score_eq(impl, model):
-    if isinstance(impl, str) or model in ("inf", "nan"):
-        return impl == model
+    """a score the model calls undefined (`inf` / `nan`: a zero denominator) -- "whenever defined": the property says nothing
+    about the value reported then, any value is accepted (the code itself says `inf` in one place and `nan` in another)"""
+    if model in ("inf", "nan"):
+        return True
+    if isinstance(impl, str) or impl is None:
+        return False
     return core.close(impl, core.unq(model))
 
 
@@ -953,26 +1107,43 @@ def _acc_diff(name, a, m):
 
 
 def compare(case, out, resps):
+    if out.get("unexpected"):
+        return None
     if case.get("kind") == "manager":
         return _compare_manager(case, out, resps)
     r = resps[0]
+    domain = case.get("domain", True)
     if "err" in out or "err" in r:
-        return None if out.get("err") == r.get("err") else f"impl {out.get('err', 'ok')} != model {r.get('err', 'ok')}"
-    if out["pairs"] != r["pairs"]:
-        return f"pairs: impl {out['pairs']} != model {r['pairs']}"
+        # quantifier: "unique non-null uuids per side and camera".  Inside it: raised vs returned (the class is not the property's
+        # business).  Outside it (null / duplicate uuids) the text says neither that nor how the input is refused: agreement is
+        # recorded, any difference is a counted skip
+        if out.get("where") == "scoring" and "err" not in r:
+            return f"impl raised {out['err']} while scoring, model ok" if domain else "skip"
+        if domain:
+            return None if ("err" in out) == ("err" in r) else f"impl {out.get('err', 'ok')} != model {r.get('err', 'ok')}"
+        return None if out.get("err") == r.get("err") else "skip"
+    v = _pairs_verdict(case, case["ests"], case["gts"], out["pairs"], r["pairs"], case["task"])
+    if v == "scores-open":
+        return "skip"
+    if v:
+        return v if domain else "skip"
     d = _acc_diff("whole", out["whole"], r["whole"]) or _acc_diff("whole_nested", out["whole_nested"], r["whole"])
     if d:
-        return d
+        return d if domain else "skip"
     if "buckets" in out:
         if len(out["buckets"]) != len(r["buckets"]):
             return "bucket count differs"
-        for b, m, sa in zip(out["buckets"], r["buckets"], out["score_accs"]):
-            d = _acc_diff("bucket[" + b["label"] + "]", b["acc"], m) or _acc_diff("score.accuracies[" + b["label"] + "]", sa, m)
+        for b, m in zip(out["buckets"], r["buckets"]):
+            sa = [a for a, l in zip(out["score_accs"], out["score_labels"]) if l == [b["label"]]]
+            d = _acc_diff("bucket[" + b["label"] + "]", b["acc"], m) if b.get("acc") else None
+            if not d and len(sa) == 1:
+                d = _acc_diff("score.accuracies[" + b["label"] + "]", sa[0], m)
             if d:
-                return d
-        for k, a, m in zip(("accuracy", "precision", "recall", "f1"), out["summary"], r["summary"]):
-            if not _score_eq(a, m):
-                return f"summary.{k}: impl {a} != model {m}"
+                return d if domain else "skip"
+        if out.get("summary") is not None:
+            for k, a, m in zip(("accuracy", "precision", "recall", "f1"), out["summary"], r["summary"]):
+                if not _score_eq(a, m):
+                    return f"summary.{k}: impl {a} != model {m}" if domain else "skip"
     return None
 
 
@@ -1081,16 +1252,16 @@ def _max_label_correct(uf, E, G, le, lg, ie, ig):
     return size, [(ie[a], ig[b]) for a, b in wit]
 
 
-def _two_stage(uf, E, G, le, lg):
-    """the listed deviation of finding C11-N1 is 'the greedy two-stage pairing in list order and nothing else': stage 1
-    walks the estimates and, for each, the ground truths in list order and pairs equal labels (uuid-first: and equal
+def _two_stage(uf, E, G, le, lg, rev_e=False, rev_g=False):
+    """the listed deviation of finding C11-N1 is 'the greedy two-stage pairing and nothing else': stage 1 walks the estimates
+    and, for each, the ground truths (in list order; rev_e / rev_g: backwards) and pairs equal labels (uuid-first: and equal
     uuids) within a camera when both are still free; stage 2 does the same with equal uuids on what is left.  Used ONLY by
     the signature of the known finding (never by the oracle)."""
     fe, fg = set(range(len(E))), set(range(len(G)))
     res = []
     for stage in (1, 2):
-        for i in sorted(fe):
-            for j in sorted(fg):
+        for i in sorted(fe, reverse=rev_e):
+            for j in sorted(fg, reverse=rev_g):
                 if i in fe and j in fg and E[i][1] == G[j][1] and \
                         ((le[i] == lg[j] and (not uf or E[i][2] == G[j][2])) if stage == 1 else E[i][2] == G[j][2]):
                     res.append([i, j])
@@ -1104,10 +1275,12 @@ def _frac_ratio(a, b):
 
 
 def _chk_score(name, got, want, unit):
-    """got: impl float or 'inf'/'nan'; want: Fraction or None (undefined)"""
+    """got: impl float or 'inf'/'nan'/None; want: Fraction or None (undefined).  "equal their counting definitions ..., lie in
+    [0,1] WHENEVER DEFINED": for an undefined score (zero denominator) the property makes no statement about the value that
+    is reported, so nothing is asserted then"""
     if want is None:
-        return None if got in ("inf", "nan") else f"{name}: expected undefined, got {got}"
-    if isinstance(got, str):
+        return None
+    if isinstance(got, str) or got is None:
         return f"{name}: expected {want}, got {got}"
     if not core.close(got, want):
         return f"{name}: expected {want}, got {got}"
@@ -1116,93 +1289,133 @@ def _chk_score(name, got, want, unit):
     return None
 
 
-def _chk_acc(name, a, tp, n, ngt, unit):
+_RESULT_KEYS = {"accuracy": "acc", "precision": "prec", "recall": "rec", "f1": "f1"}
+
+
+def _results_value(results, attr):
+    """the entry of ClassificationAccuracy.results for a score: looked up by the beginning of the key, case-insensitively
+    (`Accuracy`, `Precision`, `Recall`, `F1score` today); None when there is no such key (then nothing is asserted about it)"""
+    pre = _RESULT_KEYS[attr]
+    hits = [v for k, v in results.items() if k.lower().startswith(pre)]
+    return hits[0] if len(hits) == 1 else None
+
+
+def _chk_acc(name, a, tp, n, ngt, unit, k_fp=0):
+    """one ClassificationAccuracy against the counting definitions over its pairs: n results, tp label-correct, ngt ground
+    truths.  k_fp = number of those label-correct results whose ground truth carries the FP label and is therefore NOT among
+    the ngt ground truths of a per-label bucket (observation O3 of DESIGN section 7, same root as known finding C11-N1: a pair
+    with an FP-labelled ground truth is label-correct whatever the estimate says).  With k_fp > 0 two counting conventions are
+    accepted: today's (ngt as handed in; the ONLY place where a value outside [0,1] is tolerated, and only when tp > ngt, i.e.
+    exactly the listed deviation) and the repaired one (those ground truths counted: ngt + k_fp), which must lie in [0,1]."""
     if a["tp"] != tp or a["fp"] != n - tp or a["num"] != n:
         return f"{name}: counts (tp,fp,n)=({a['tp']},{a['fp']},{a['num']}) expected ({tp},{n - tp},{n})"
-    p, r = _frac_ratio(tp, n), _frac_ratio(tp, ngt)
-    f1 = None if (p is None or r is None or p + r == 0) else 2 * p * r / (p + r)
-    for k, want in (("accuracy", _frac_ratio(tp, n + ngt - tp)), ("precision", p), ("recall", r), ("f1", f1)):
-        d = _chk_score(f"{name}.{k}", a[k], want, unit)
-        if d:
-            return d
-        if a["results"][{"accuracy": "Accuracy", "precision": "Precision", "recall": "Recall", "f1": "F1score"}[k]] != a[k]:
-            return f"{name}.results[{k}] differs from the attribute"
-    if a["results"]["predict_num"] != n:
-        return f"{name}.results[predict_num] != {n}"
+    cands = [(ngt, unit and not (k_fp > 0 and tp > ngt))]
+    if k_fp > 0:
+        cands.append((ngt + k_fp, unit))
+    first = None
+    for g, u in cands:
+        d = None
+        if a["num_gt"] != g:
+            d = f"{name}: num_ground_truth is {a['num_gt']}, expected {g}"
+        p, r = _frac_ratio(tp, n), _frac_ratio(tp, g)
+        f1 = None if (p is None or r is None or p + r == 0) else 2 * p * r / (p + r)
+        for k, want in (("accuracy", _frac_ratio(tp, n + g - tp)), ("precision", p), ("recall", r), ("f1", f1)):
+            d = d or _chk_score(f"{name}.{k}", a[k], want, u)
+        if d is None:
+            if g == ngt and k_fp > 0 and tp > ngt:
+                _note("oracle:O3-range-exemption-used")
+            elif g != ngt:
+                _note("oracle:O3-repaired-convention-accepted")
+            break
+        first = first or d
+    else:
+        return first
+    # ClassificationAccuracy.results (observe_at) repeats the attributes
+    for k in ("accuracy", "precision", "recall", "f1"):
+        v = _results_value(a["results"], k)
+        if v is not None and v != a[k]:
+            return f"{name}.results[{k}] = {v} differs from the attribute {a[k]}"
+    nums = [v for kk, v in a["results"].items() if "num" in kk.lower()]
+    if len(nums) == 1 and nums[0] != n:
+        return f"{name}.results[predict_num] = {nums[0]} != {n}"
     return None
 
 
-def _expected_buckets(case, E, G, pairs):
-    """THE per-label bucketing, from the property's reading of the result list R = pairs (in order) and targets T:
-    bucket(L) = [r in R, in order, with est label == L, or est label no target and r has a ground truth labelled L].
-    Labels are (family, value): members of different label enums are never equal."""
+def _label_counts(case, E, G, pairs, flags, with_gt_routing):
+    """per target label L: [results counted, label-correct among them, of those with an FP-labelled ground truth] --
+    results whose ESTIMATE carries L; with_gt_routing: also the results whose estimate label is no target and whose ground
+    truth carries L (today's code).  The property does not say under which label, if any, a result with a non-target
+    estimate label is scored: both conventions are accepted (one per case), see _chk_per_label."""
     T = [(case["fe"], t) for t in case["targets"]]
     Tset = set(T)
-    exp = {t: [] for t in T}
-    for i, j in pairs:
+    per = {t: [0, 0, 0] for t in T}
+    for (i, j), ok in zip(pairs, flags):
         le = _lab(case, "e", E[i])
-        if le in Tset:
-            exp[le].append([i, j])
-        elif j is not None and _lab(case, "g", G[j]) in Tset:
-            exp[_lab(case, "g", G[j])].append([i, j])
-    return T, exp
+        b = le if le in Tset else None
+        if b is None and with_gt_routing and j is not None and _lab(case, "g", G[j]) in Tset:
+            b = _lab(case, "g", G[j])
+        if b is not None:
+            per[b][0] += 1
+            per[b][1] += int(ok)
+            per[b][2] += int(ok and j is not None and G[j][0] == FP_NAME and _lab(case, "g", G[j]) != b)
+    return T, per
 
 
-def _chk_buckets(case, E, G, out):
-    """buckets handed to the metrics == independent bucketing; non-target keys hold no result of a target bucket;
-    inputs untouched; same answer when asked again"""
-    if not out.get("inputs_unchanged", True):
-        return "divide_objects changed its input list / target list"
-    if not out.get("repeat_same", True):
-        return "divide_objects gave a different answer for the same arguments the second time"
-    T, exp = _expected_buckets(case, E, G, out["pairs"])
-    got = {tuple(k): v for k, v in out["divide"]}
-    if len(got) != len(out["divide"]):
-        return "divide_objects returned equal keys twice"
-    in_target = set()
-    for t in T:
-        if t not in got:
-            return f"no bucket for target label {t[1]}"
-        if got[t] != exp[t]:
-            return (f"bucket[{t[1]}] = {got[t]} but the results with estimate label {t[1]} (or a non-target estimate "
-                    f"label and ground truth {t[1]}) are {exp[t]}; targets {case['targets']}")
-        in_target.update(tuple(r) for r in exp[t])
-    for k, v in got.items():
-        if k in exp:
-            continue
-        for r in v:
-            if tuple(r) in in_target:
-                return f"result {r} belongs to a target bucket but is filed under the non-target key {k[1]}"
-    # what the metrics receive (frames) is the bucket, cut into frames
-    for t, b in zip(T, out.get("buckets", [])):
-        flat = [x for f in b["frames"] for x in f]
-        if b["label"] != t[1] or flat != exp[t]:
-            return f"metrics input for {t[1]} is {flat}, expected {exp[t]}"
-        ngt = sum(1 for s in G if _lab(case, "g", s) == t)
-        if b["num_gt"] != ngt:
-            return f"num_ground_truth[{t[1]}] = {b['num_gt']} but {ngt} ground truths carry that label"
-    if out.get("score_labels") is not None and out["score_labels"] != [[t[1]] for t in T]:
-        return f"ClassificationMetricsScore.accuracies are for {out['score_labels']}, targets {case['targets']}"
-    return None
+def _chk_per_label(name, case, E, G, pairs, flags, accs_by_label, summary, unit=True, extra=None):
+    """per-label accuracies and their summary == counting definitions over the pairs.  accs_by_label: {label value: acc dict}
+    (looked up by the accuracy's own target_labels; a target label without exactly one accuracy is not judged).
+    extra: {label: [n, tp, k_fp, ngt]} counts of earlier frames to add (scene level)."""
+    lg = [_lab(case, "g", s) for s in G]
+    first = None
+    for routing in (True, False):
+        T, per = _label_counts(case, E, G, pairs, flags, routing)
+        d = None
+        S = [0, 0, 0, 0]
+        for t in T:
+            n, tp, kfp = per[t]
+            ngt = sum(1 for x in lg if x == t)
+            if extra:
+                n, tp, kfp, ngt = n + extra[t[1]][routing][0], tp + extra[t[1]][routing][1], kfp + extra[t[1]][routing][2], ngt + extra[t[1]][routing][3]
+            a = accs_by_label.get(t[1])
+            if a is not None:
+                d = d or _chk_acc(f"{name}.accuracies[{t[1]}]", a, tp, n, ngt, unit, kfp)
+            S[0] += n; S[1] += ngt; S[2] += tp; S[3] += kfp
+        if d is None and summary is not None:
+            for g, u in [(S[1], unit and not (S[3] > 0 and S[2] > S[1]))] + ([(S[1] + S[3], unit)] if S[3] else []):
+                p, r = _frac_ratio(S[2], S[0]), _frac_ratio(S[2], g)
+                f1 = None if (p is None or r is None or p + r == 0) else 2 * p * r / (p + r)
+                d = None
+                for k, got, want in zip(("accuracy", "precision", "recall", "f1"), summary, (_frac_ratio(S[2], S[0] + g - S[2]), p, r, f1)):
+                    d = d or _chk_score(f"{name}.summary.{k}", got, want, u)
+                if d is None:
+                    break
+        if d is None:
+            return None
+        first = first or d
+    return first
+
+
+def _by_label(labels, accs):
+    """{label value: accuracy} for the accuracies that are for exactly one label and the only one for it"""
+    seen = {}
+    for lab, a in zip(labels or [], accs or []):
+        if len(lab) == 1:
+            seen.setdefault(lab[0], []).append(a)
+    return {k: v[0] for k, v in seen.items() if len(v) == 1}
 
 
 def _oracle_manager(case, out, short=None):
     """the property evaluated on what the manager holds: frame_result.object_results of every frame (pairing statement on the
     objects the manager evaluates: those with a target label and those with the FP label), the classification scores of every
-    frame and of the scene (counting definitions over the pairs, per label and summarised; in [0,1] when defined and no ground
-    truth carries the FP label; all 1 for a perfect frame / scene)"""
+    frame and of the scene (counting definitions over the pairs, per label and summarised; in [0,1] when defined -- except the
+    exact deviation O3, see _chk_acc; all 1 for a perfect frame / scene)"""
     if "err" in out:
-        return f"the manager raised {out['err']} on unique non-null uuids"
+        return f"the manager raised {out['err']} in {out.get('where')} on unique non-null uuids"
     fam = case["fam"]
     c2 = {"fe": fam, "fg": fam, "uf": case["uf"], "targets": case["targets"]}
     T = list(case["targets"])
-    if out.get("targets") != T:
-        return f"harness: manager target labels {out.get('targets')} != {T}"
-    if out.get("n_frame_results") != len(case["frames"]):
-        return f"{out.get('n_frame_results')} frame results for {len(case['frames'])} frames"
-    pooled = {t: [0, 0, 0] for t in T}  # results, ground truths, label-correct results
+    extra = {t: {True: [0, 0, 0, 0], False: [0, 0, 0, 0]} for t in T}
     all_perfect = True
-    scene_fp_gt = False
     for k, (fr, fo) in enumerate(zip(case["frames"], out["frames"])):
         ke, kg = _kept(case, fr["ests"]), _kept(case, fr["gts"])
         E, G = [fr["ests"][i] for i in ke], [fr["gts"][j] for j in kg]
@@ -1214,74 +1427,48 @@ def _oracle_manager(case, out, short=None):
         d = _oracle_pairing(c2, E, G, pairs, short, where=f"frame {k}, ")
         if d:
             return f"frame {k}: {d}"
-        if sorted(fo["gts_kept"]) != kg:
-            return f"frame {k}: ground truths evaluated {sorted(fo['gts_kept'])}, those with a target label are {kg}"
         le, lg = [s[0] for s in E], [s[0] for s in G]
         fp_gt = FP_NAME in lg
-        scene_fp_gt = scene_fp_gt or fp_gt
         flags = [j is not None and (lg[j] == FP_NAME or le[i] == lg[j]) for i, j in pairs]
         if flags != fo["correct"]:
             return f"frame {k}: is_label_correct {fo['correct']} expected {flags}"
-        per = {t: [0, 0, 0] for t in T}
-        for (i, j), ok in zip(pairs, flags):
-            # a result is scored under its estimate's label, else (estimate label no target) under its ground truth's
-            b = le[i] if le[i] in per else lg[j] if j is not None and lg[j] in per else None
-            if b is not None:
-                per[b][0] += 1
-                per[b][2] += int(ok)
-        for x in lg:
-            if x in per:  # an FP-labelled ground truth outside the target list is evaluated but counted under no label
-                per[x][1] += 1
-        d = _chk_scores(f"frame {k}", fo, T, per, unit=not fp_gt)
+        if not fo.get("n_scores"):
+            return f"frame {k}: no classification score although the task is classification"
+        d = _chk_per_label(f"frame {k}", c2, E, G, pairs, flags, _by_label(fo.get("labels"), fo.get("accs")), fo.get("summary"))
         if d:
             return d
         perfect = len(G) > 0 and len(pairs) == len(G) and all(j is not None and le[i] == lg[j] for i, j in pairs) and not fp_gt
         all_perfect = all_perfect and (perfect or (not E and not G))
-        if perfect and fo["summary"] != [1.0, 1.0, 1.0, 1.0]:
+        # "... are all 1 when every ground truth is paired with an equally-labelled estimate and nothing else is reported"
+        if perfect and fo.get("summary") is not None and fo["summary"] != [1.0, 1.0, 1.0, 1.0]:
             return f"frame {k}: every ground truth paired with an equally-labelled estimate, nothing else reported, but summary = {fo['summary']}"
-        for t in T:
-            for q in range(3):
-                pooled[t][q] += per[t][q]
-    d = _chk_scores("scene", out["scene"], T, pooled, unit=not scene_fp_gt)
+        for routing in (True, False):
+            _, per = _label_counts(c2, E, G, pairs, flags, routing)
+            for t in T:
+                x = extra[t][routing]
+                x[0] += per[(fam, t)][0]; x[1] += per[(fam, t)][1]; x[2] += per[(fam, t)][2]
+                x[3] += sum(1 for g in lg if g == t)
+    sc = out["scene"]
+    if not sc.get("n_scores"):
+        return "scene: no classification score although the task is classification"
+    d = _chk_per_label("scene", c2, [], [], [], [], _by_label(sc.get("labels"), sc.get("accs")), sc.get("summary"), extra=extra)
     if d:
         return d
-    if all_perfect and sum(v[1] for v in pooled.values()) > 0:
-        if out["scene"]["summary"] != [1.0, 1.0, 1.0, 1.0]:
-            return f"every frame perfect but the scene summary = {out['scene']['summary']}"
-        for t, a in zip(T, out["scene"]["accs"]):
-            if pooled[t][1] > 0 and [a[x] for x in ("accuracy", "precision", "recall", "f1")] != [1.0] * 4:
+    total_gt = sum(extra[t][True][3] for t in T)
+    if all_perfect and total_gt > 0:
+        if sc.get("summary") is not None and sc["summary"] != [1.0, 1.0, 1.0, 1.0]:
+            return f"every frame perfect but the scene summary = {sc['summary']}"
+        for t, a in _by_label(sc.get("labels"), sc.get("accs")).items():
+            if t in extra and extra[t][True][3] > 0 and [a[x] for x in ("accuracy", "precision", "recall", "f1")] != [1.0] * 4:
                 return f"every frame perfect but the scene scores of {t} are {a}"
-    return None
-
-
-def _chk_scores(name, so, T, per, unit=True):
-    """one ClassificationMetricsScore against the counts per[label] = [results, ground truths, label-correct results];
-    unit: assert the [0,1] range too (not when a ground truth carries the FP label, see ASSUMPTIONS)"""
-    if so.get("n_scores") != 1:
-        return f"{name}: {so.get('n_scores')} classification scores instead of one"
-    if so["labels"] != [[t] for t in T]:
-        return f"{name}: accuracies are for {so['labels']}, targets {T}"
-    S = [0, 0, 0]
-    for t, a in zip(T, so["accs"]):
-        n, ngt, tp = per[t]
-        d = _chk_acc(f"{name}.accuracies[{t}]", a, tp, n, ngt, unit)
-        if d:
-            return d
-        if a["num_gt"] != ngt:
-            return f"{name}: num_ground_truth of the {t} accuracy is {a['num_gt']}, {ngt} ground truths carry that label"
-        S[0] += n; S[1] += ngt; S[2] += tp
-    p, r = _frac_ratio(S[2], S[0]), _frac_ratio(S[2], S[1])
-    f1 = None if (p is None or r is None or p + r == 0) else 2 * p * r / (p + r)
-    for k, got, want in zip(("accuracy", "precision", "recall", "f1"), so["summary"], (_frac_ratio(S[2], S[0] + S[1] - S[2]), p, r, f1)):
-        d = _chk_score(f"{name}.summary.{k}", got, want, unit)
-        if d:
-            return d
     return None
 
 
 def oracle(case, out):
     """every clause of the property; a failure of the maximality clause alone is reported last (MAX_TAG), any other failing
     clause first -- so a MAX_TAG failure means: everything else holds"""
+    if out.get("unexpected"):  # run_check reports these itself; kept total for older runners
+        return f"the real code raised {out.get('err')} unexpectedly"
     other, short = _check(case, out)
     if other:
         return other
@@ -1296,8 +1483,10 @@ def known_finding(case, out, failure):
     estimate that shares the uuid of an FP-labelled ground truth may be spent on an equally-labelled ground truth that another
     estimate could have taken.  Signature (Lean: tlr_tp_exact, tlr_tp_maximum, tlr_tp_maximum_up_to_fp): ONLY the maximality
     clause fails; label-first mode; in every camera (and frame) where it fails there is an FP-labelled ground truth and the
-    shortfall is at most their number; and the results are exactly the greedy two-stage pairing in list order."""
-    if not isinstance(failure, str) or not failure.startswith(MAX_TAG):
+    shortfall is at most their number; and the results are the greedy two-stage pairing -- compared as a SET of pairs (the
+    property does not order the results) against the greedy pairing for each of the four scan orders (estimates / ground truths
+    forwards or backwards: which of several equally-labelled candidates is taken first is a tie the property leaves open)."""
+    if not isinstance(failure, str) or not failure.startswith(MAX_TAG) or out.get("unexpected"):
         return None
     other, short = _check(case, out)
     if other or not short:
@@ -1305,7 +1494,8 @@ def known_finding(case, out, failure):
     for s in short:
         if s["uf"] or s["fp_gts"] < 1 or not (0 < s["max"] - s["got"] <= s["fp_gts"]):
             return None
-        if s["pairs"] != s["expected_by_signature"]:
+        # the PAIRED results (whether the traffic-light path also reports its unpaired estimates is left open, _fp_tail_stated)
+        if _spairs([p for p in s["pairs"] if p[1] is not None]) not in s["expected_by_signature"]:
             return None
     return N1
 
@@ -1323,32 +1513,58 @@ def _oracle_rest(case, out, short):
         E, G, link = _div_specs(case)
         c2 = {"fe": case["fam"], "fg": case["fam"], "targets": case["targets"]}
         if "err" in out:
-            return f"raised {out['err']} on a well-formed result list"
-        if out["pairs"] != [[i, link[i]] for i in range(len(E))]:
-            return "harness: result list not as built"
+            return f"raised {out['err']} while scoring a well-formed result list"
         return _oracle_scores(c2, E, G, out, whole=False)
     if not case.get("domain", True):
-        return None
+        return None  # quantifier: "unique non-null uuids per side and camera"
     E, G = case["ests"], case["gts"]
-    if "err" in out:
+    if "err" in out and out.get("where") != "scoring":
         return f"raised {out['err']} on unique non-null uuids"
-    d = _oracle_pairing(case, E, G, out["pairs"], short)
+    d = _oracle_pairing(case, E, G, out["pairs"], short, task=case["task"])
     if d:
         return d
+    if "err" in out:
+        return f"raised {out['err']} while scoring the results of unique non-null uuids"
     return _oracle_scores(case, E, G, out)
 
 
-def _oracle_pairing(case, E, G, pairs, short=None, where=""):
+def _fp_tail_stated(case, E, G, task, P):
+    """what the documentation states about the UNPAIRED estimates of this input (P: the paired (i, j)):
+      "all"  every unpaired estimate is reported as a result without ground truth -- docstring of get_object_results: "In case
+             of FP validation, estimated objects, which have no matching GT, will be ignored. Otherwise, they all are FP.";
+             holds today when there is no ground truth at all, and on the generic (uuid) path
+      "none" no such result: FP validation without any ground truth
+      None   the text and the code part ways or are silent, nothing is asserted: the traffic-light path (the code drops the
+             unpaired estimates), the generic path when an unpaired estimate is on CAM_TRAFFIC_LIGHT (the code then drops the
+             whole tail), FP validation with ground truths (the id-based paths do not look at the task)"""
+    if not E:
+        return None
+    fpv = str(task).startswith("fp_validation")
+    if not G:
+        return "none" if fpv else "all"
+    if fpv or case["fe"] == "tl":
+        return None
+    paired = {i for i, _ in P}
+    if any(E[i][1] == "cam_traffic_light" for i in range(len(E)) if i not in paired):
+        return None
+    return "all"
+
+
+def _oracle_pairing(case, E, G, pairs, short=None, where="", task="classification2d"):
     """THE pairing statement of the property on one pair of lists (case gives the label families and uuid-first setting):
     same camera, every object at most once, generic: paired iff same uuid (and camera), traffic lights: label stage
     then uuid stage (the label stage first: as many equally-labelled pairs as any one-to-one same-camera pairing has),
     and the number of LABEL-CORRECT pairs the largest possible over the one-to-one pairings the rule admits.
     `short` (a list): a shortfall of that last clause is recorded there, per camera, instead of being returned, so that the
     caller can evaluate every other clause too (the signature of finding C11-N1 needs 'nothing else fails')."""
+    for i, j in pairs:
+        if not (0 <= i < len(E)) or (j is not None and not (0 <= j < len(G))):
+            return f"a result refers to an object that is not among the inputs: {pairs}"
     P = [(i, j) for i, j in pairs if j is not None]
     Fp = [i for i, j in pairs if j is None]
     es = [i for i, _ in pairs]
     gs = [j for _, j in P]
+    # "each object is used at most once"
     if len(set(es)) != len(es):
         return f"an estimate appears in two results: {pairs}"
     if len(set(gs)) != len(gs):
@@ -1356,8 +1572,6 @@ def _oracle_pairing(case, E, G, pairs, short=None, where=""):
     for i, j in P:
         if E[i][1] != G[j][1]:
             return f"pair ({i},{j}) crosses cameras {E[i][1]} / {G[j][1]}"
-    if not E and pairs:
-        return "results without estimates"
     same_uuid = {(i, j) for i in range(len(E)) for j in range(len(G)) if E[i][2] == G[j][2] and E[i][1] == G[j][1]}
     le = [_lab(case, "e", s) for s in E]
     lg = [_lab(case, "g", s) for s in G]
@@ -1366,7 +1580,7 @@ def _oracle_pairing(case, E, G, pairs, short=None, where=""):
         if set(P) != same_uuid:
             return f"paired {sorted(P)} but same-uuid-same-camera pairs are {sorted(same_uuid)}"
     if tlr and not case["uf"]:
-        ue = set(range(len(E))) - set(es)
+        ue = set(range(len(E))) - {i for i, _ in P}
         ug = set(range(len(G))) - set(gs)
         for i, j in P:
             if le[i] != lg[j] and (i, j) not in same_uuid:
@@ -1383,6 +1597,15 @@ def _oracle_pairing(case, E, G, pairs, short=None, where=""):
         best = _max_equal_pairs(ke, kg) if len(E) <= 6 and len(G) <= 6 else _class_sum(ke, kg)
         if got != best:
             return f"{got} equally-labelled pairs, but a one-to-one same-camera pairing with {best} exists"
+    # the unpaired estimates: reported as results without ground truth exactly where the documentation says so ("nothing else
+    # is reported" presupposes that what IS reported is tied to the input, not only to the output)
+    stated = _fp_tail_stated(case, E, G, task, P)
+    unpaired = sorted(set(range(len(E))) - {i for i, _ in P})
+    if stated == "all" and sorted(Fp) != unpaired:
+        return (f"estimates {unpaired} have no ground truth of their uuid and camera, but the results without ground truth are for "
+                f"{sorted(Fp)} (get_object_results: unpaired estimates 'all are FP')")
+    if stated == "none" and Fp:
+        return f"FP validation without ground truths reports results {pairs} (unpaired estimates 'will be ignored')"
     if tlr:
         # "... so that the number of label-correct pairs is the largest possible under that rule" -- the count the metrics use
         # (is_label_correct: equal labels, or an FP-labelled ground truth), against every one-to-one pairing whose pairs the
@@ -1402,7 +1625,9 @@ def _oracle_pairing(case, E, G, pairs, short=None, where=""):
                 if short is None:
                     return MAX_TAG + msg
                 short.append({"msg": msg, "uf": bool(case["uf"]), "got": got, "max": best, "fp_gts": nfp,
-                              "pairs": [list(p) for p in pairs], "expected_by_signature": _two_stage(case["uf"], E, G, le, lg)})
+                              "pairs": [list(p) for p in pairs],
+                              "expected_by_signature": [_spairs(_two_stage(case["uf"], E, G, le, lg, re_, rg_))
+                                                        for re_ in (False, True) for rg_ in (False, True)]})
     return None
 
 
@@ -1411,7 +1636,6 @@ def _oracle_scores(case, E, G, out, whole=True):
     pairs = out["pairs"]
     le = [_lab(case, "e", s) for s in E]
     lg = [_lab(case, "g", s) for s in G]
-    fp_gt = any(s[0] == "false_positive" for s in G)
 
     def correct(i, j):
         return j is not None and (G[j][0] == "false_positive" or le[i] == lg[j])
@@ -1422,45 +1646,34 @@ def _oracle_scores(case, E, G, out, whole=True):
     tp = sum(flags)
     if whole:
         d = _chk_acc("whole", out["whole"], tp, len(pairs), len(G), True)
+        if not d and "whole_nested" in out:
+            d = _chk_acc("whole (per-frame nesting)", out["whole_nested"], tp, len(pairs), len(G), True)
         if d:
             return d
+    # "... and are all 1 when every ground truth is paired with an equally-labelled estimate and nothing else is reported"
     all_right = len(G) > 0 and len(pairs) == len(G) and all(j is not None and le[i] == lg[j] for i, j in pairs)
     if all_right and whole:
         for k in ("accuracy", "precision", "recall", "f1"):
             if out["whole"][k] != 1.0:
                 return f"everything paired and right but whole.{k} = {out['whole'][k]}"
-    if "divide" in out:
-        d = _chk_buckets(case, E, G, out)
+    if "label_counts" in out and out["label_counts"] != out.get("label_counts_reversed"):
+        # "equal their counting definitions over the pairs": a count over a set of pairs cannot depend on the order in which the
+        # pairs happen to be listed
+        return (f"per-label counts [results, label-correct] {out['label_counts']} for targets {case['targets']}, but "
+                f"{out['label_counts_reversed']} when the same results are listed in reverse order")
+    if "buckets" in out:
+        accs = _by_label(out.get("score_labels"), out.get("score_accs"))
+        d = _chk_per_label("score", case, E, G, pairs, flags, accs, out.get("summary"))
         if d:
             return d
-    if "buckets" in out:
-        T, exp = _expected_buckets(case, E, G, pairs)
-        S = [0, 0, 0, 0]
-        for t, b, sa in zip(T, out["buckets"], out["score_accs"]):
-            rs = exp[t]  # the independent bucket, not the one the code produced
-            btp = sum(1 for i, j in rs if correct(i, j))
-            ngt = sum(1 for x in lg if x == t)
-            d = _chk_acc("score.accuracies[" + t[1] + "]", sa, btp, len(rs), ngt, not fp_gt)
-            if not d and b["acc"] is not sa:
-                d = _chk_acc("bucket[" + t[1] + "]", b["acc"], btp, len(rs), ngt, not fp_gt)
-            if d:
-                return d
-            if sa["num_gt"] != ngt or b["acc"]["num_gt"] != ngt:
-                return f"num_ground_truth of the {t[1]} accuracy is {sa['num_gt']}, {ngt} ground truths carry that label"
-            S[0] += len(rs); S[1] += ngt; S[2] += btp; S[3] += len(rs) - btp
-        p, r = _frac_ratio(S[2], S[2] + S[3]), _frac_ratio(S[2], S[1])
-        if p is None or r is None:
-            f1 = None
-        else:
-            f1 = None if p + r == 0 else 2 * p * r / (p + r)
-        for k, got, want in zip(("accuracy", "precision", "recall", "f1"), out["summary"],
-                                (_frac_ratio(S[2], S[0] + S[1] - S[2]), p, r, f1)):
-            d = _chk_score("summary." + k, got, want, not fp_gt)
+        if any(b.get("acc") is not None and b["acc"] is not accs.get(b["label"]) for b in out["buckets"]):
+            # a ClassificationAccuracy built directly from the bucket (next to the one inside ClassificationMetricsScore)
+            d = _chk_per_label("bucket", case, E, G, pairs, flags, {b["label"]: b["acc"] for b in out["buckets"] if b.get("acc")}, None)
             if d:
                 return d
         labels_used = {s[0] for s in E} | {s[0] for s in G}
         if all_right and case["fe"] == case["fg"] and labels_used <= set(case["targets"]):
-            if out["summary"] != [1.0, 1.0, 1.0, 1.0]:
+            if out.get("summary") is not None and out["summary"] != [1.0, 1.0, 1.0, 1.0]:
                 return f"everything paired and right but summary = {out['summary']}"
     return None
 
@@ -1514,13 +1727,16 @@ def _branches_manager(case, out):
             br.append("manager:frame:fp-result")
         if fo["pairs"] and not all(fo["correct"]):
             br.append("manager:frame:wrong-label-pair")
-        v = fo["summary"][3]
-        br.append("manager:frame.f1:" + (v if isinstance(v, str) else "1" if v == 1.0 else "0" if v == 0.0 else "frac"))
+        v = (fo.get("summary") or [None] * 4)[3]
+        br.append("manager:frame.f1:" + ("unobservable" if v is None else v if isinstance(v, str) else "1" if v == 1.0 else "0" if v == 0.0 else "frac"))
     if not any(_kept(case, fr["ests"]) and _kept(case, fr["gts"]) for fr in case["frames"]):
         br.append("trivial")
-    v = out["scene"]["summary"]
-    br.append("manager:scene.f1:" + (v[3] if isinstance(v[3], str) else "1" if v[3] == 1.0 else "0" if v[3] == 0.0 else "frac"))
-    br.append("manager:scene.accuracy:" + (v[0] if isinstance(v[0], str) else "1" if v[0] == 1.0 else "0" if v[0] == 0.0 else "frac"))
+    v = out["scene"].get("summary")
+    if v is None:
+        br.append("unobservable:ClassificationMetricsScore._summarize")
+    else:
+        br.append("manager:scene.f1:" + (v[3] if isinstance(v[3], str) else "1" if v[3] == 1.0 else "0" if v[3] == 0.0 else "frac"))
+        br.append("manager:scene.accuracy:" + (v[0] if isinstance(v[0], str) else "1" if v[0] == 1.0 else "0" if v[0] == 0.0 else "frac"))
     return sorted(set(br))
 
 
@@ -1535,9 +1751,11 @@ def _branches0(case, out):
         if "err" in out:
             return br + ["err:" + out["err"]]
         br += _bucket_branches({"fe": case["fam"], "fg": case["fam"], "targets": case["targets"]}, E, G, out)
-        if "summary" in out:
+        if out.get("summary") is not None:
             v = out["summary"][3]
             br.append("summary.f1:" + (v if isinstance(v, str) else "num"))
+        elif "summary" in out:
+            br.append("unobservable:ClassificationMetricsScore._summarize")
         else:
             br.append("divide:buckets-only")
         return br
@@ -1581,9 +1799,12 @@ def _branches0(case, out):
     for k in ("accuracy", "precision", "recall", "f1"):
         v = out["whole"][k]
         br.append(f"whole.{k}:" + (v if isinstance(v, str) else "1" if v == 1.0 else "0" if v == 0.0 else "frac"))
-    if "summary" in out:
-        v = out["summary"][3]
-        br.append("summary.f1:" + (v if isinstance(v, str) else "num"))
+    if "buckets" in out:
+        if out.get("summary") is not None:
+            v = out["summary"][3]
+            br.append("summary.f1:" + (v if isinstance(v, str) else "num"))
+        else:
+            br.append("unobservable:ClassificationMetricsScore._summarize")
         br += ["pair:" + b for b in _bucket_branches(case, E, G, out)]
     return br
 
